@@ -329,6 +329,9 @@ func c07Check(c *ev.Collector, k c07Case) {
 				found := false
 				for i < len(rq.Msgs) {
 					m, err := codecUnmarshalBV(k.JSON, rq.Msgs[i])
+					if len(rq.Msgs[i]) == 0 {
+						m, err = &BV{}, nil // a zero-length payload is the zero message in every codec (not judged)
+					}
 					i++
 					if err == nil && bytes.Equal(m.Value, d) {
 						found = true
